@@ -414,7 +414,7 @@ def gen_world(d):
 # Generator: annotation text with macros
 # ---------------------------------------------------------------------------
 IMG_NAMES = ['pic', 'pic.png', 'sub/tile', '/top/abs', '{ImagePath}/x/byid', '{UDGImagePath}/u2', 'pic|some alt text', 'sprite']
-AUDIO_NAMES = ['blip.wav', 'sub/beep.wav', '/sounds/zap.wav', 'tune.wav']
+AUDIO_NAMES = ['blip.wav', 'sub/beep.wav', '/sounds/zap.wav', 'tune.wav', 'LOUD.WAV', 'sub/Mixed.Wav']      # incl. upper- and mixed-case extensions
 
 
 class TextGen:
